@@ -600,6 +600,10 @@ func reclaimFinal(removeAll bool, threshold int) func(w *World, c *Collector) *V
 func reclaimFinalMode(removeAll, partial bool, threshold int) func(w *World, c *Collector) *Violation {
 	return func(w *World, c *Collector) *Violation {
 		mp := w.mh()
+		// locations freed by the premise step itself (the collector only
+		// re-examines files that new freelist entries touch)
+		beforePremise := w.locateAll()
+		freedNow := map[uint64]bool{}
 		// 1. establish the premise: supersede every live record, flush
 		for ki := range w.Keys {
 			val, present := w.Model[string(w.Keys[ki].Digest)]
@@ -626,6 +630,12 @@ func reclaimFinalMode(removeAll, partial bool, threshold int) func(w *World, c *
 		if v := w.Step(Op{Kind: OpFlush}); v != nil {
 			return v
 		}
+		afterPremise := w.locateAll()
+		for d, b := range beforePremise {
+			if a, ok := afterPremise[d]; !ok || a != b {
+				freedNow[uint64(b.Offset)] = true
+			}
+		}
 		// 2. which non-current files hold nothing live?
 		view := loadFsck(w.FS, w.Cfg)
 		live := map[uint64]bool{}
@@ -645,10 +655,14 @@ func reclaimFinalMode(removeAll, partial bool, threshold int) func(w *World, c *
 				if !ok {
 					break
 				}
-				hasLive := false
+				hasLive, touched := false, false
 				var busy, free int64
 				for _, r := range recs {
-					if live[uint64(n)*uint64(view.ph.MaxFileSize)+uint64(r.Pos)] {
+					abs := uint64(n)*uint64(view.ph.MaxFileSize) + uint64(r.Pos)
+					if freedNow[abs] {
+						touched = true
+					}
+					if live[abs] {
 						hasLive = true
 						busy += int64(r.Size)
 					} else {
@@ -657,7 +671,10 @@ func reclaimFinalMode(removeAll, partial bool, threshold int) func(w *World, c *
 				}
 				if !hasLive {
 					prem = append(prem, premise{fmt.Sprintf("%s.%d", dataPath, n), n == view.ph.FirstFile, len(recs)})
-				} else if partial && 100*free >= int64(threshold)*(free+busy) {
+				} else if partial && touched && 100*free >= int64(threshold)*(free+busy) {
+					// (only files the premise step itself freed a record in:
+					// those are the ones the next cycle re-examines, with the
+					// same accounting as here)
 					// low-use: must be drained by relocation and then released
 					prem = append(prem, premise{fmt.Sprintf("%s.%d", dataPath, n), false, len(recs)})
 					c.count("reclaim.low_use_premise_files", 1)
